@@ -691,6 +691,7 @@ def rule_collection_init(rep: Report, ix, clf: Classifier) -> None:
 
     n = n_relinked = 0
     skipped: dict[str, list] = {}
+    bypassed: dict[str, bool] = {}
     layout_ok = relink_ok = fresh_ok = None
     for p in enum_paths(f):
         if not p.normal:
@@ -721,6 +722,28 @@ def rule_collection_init(rep: Report, ix, clf: Classifier) -> None:
         ws = writes_of(p, clf, f)
         rl = [w for w in ws if w.kind == "rebind" and w.attr == "_data_flat"]
         sl = [w for w in ws if w.kind == "mutcall" and w.attr == "append" and w.chain == "self._slices"]
+        # within one iteration the store lies on every non-raising path of the iteration: no
+        # `continue` / `break` / conditional may bypass it (a guard that raises is fine)
+        for loop, stores, rule, what in ((relink, rl, "C15.collection-relink", "link"), (slicing, sl, "C15.collection-layout", "slice")):
+            iterated = any(e.kind == "bind" and e.node is loop.target for e in p.evs)
+            if iterated and not any(loop in p.evs[w.idx].loops for w in stores):
+                inside = [(e.node, e.truth) for e in p.evs if e.kind == "decide" and isinstance(e.node, ast.expr) and loop in e.loops]
+                names = sorted({x.id for t, _ in inside for x in ast.walk(t) if isinstance(x, ast.Name)})
+                key = f"{ref}::{what}-bypassed-by:" + ("+".join(names) or "unconditional")
+                if key not in bypassed:
+                    bypassed[key] = True
+                    how = " and ".join(f"`{ast.unparse(t)}` is {tr}" for t, tr in inside) or "unconditionally"
+                    consequence = (
+                        "that member keeps its own array: a write through the collection is not seen through the member and vice versa"
+                        if what == "link"
+                        else "the member gets no slice of the collection array: the layout is no longer the fields in order"
+                    )
+                    rep.violation(
+                        rule,
+                        key,
+                        f"an iteration of the {'re-link' if what == 'link' else 'slice-recording'} loop completes without the {what} store ({how}): {consequence}",
+                        line=loop.lineno,
+                    )
         if sl and layout_ok is not False:
             w = sl[0]
             layout_ok = _check_slice_bookkeeping(p, w, slicing, MEMBERS)
@@ -744,6 +767,7 @@ def rule_collection_init(rep: Report, ix, clf: Classifier) -> None:
             guard=how,
         )
     rep.oblige("collection:relinked-on-every-path", not skipped, {"paths": n, "relinked": n_relinked})
+    rep.oblige("collection:stores-on-every-iteration-path", not bypassed, sorted(bypassed))
     rep.oblige("collection:layout-cumulative-in-field-order", layout_ok is True)
     rep.oblige("collection:link-is-view-of-own-slice", relink_ok is True)
     rep.oblige("collection:array-fresh", fresh_ok is True)
